@@ -1205,7 +1205,10 @@ static void IRP_OutProcessor(void) {
         Tmp               = FirstOutputTag;
         FirstOutputTag    = FirstOutputTag->Next;
         Tmp->Tag->IsEmpty = !Tmp->Tag->Lines;
-        if (IfAsm) {
+
+        /* IRPC over an empty string: no character, no iteration */
+
+        if (IfAsm && (Tmp->Tag->ParCnt > 0)) {
             NextDoLst      = ApplyLstMacroExpMod(DoLst, &LstMacroExpModDefault);
             NextDoLst      = ApplyLstMacroExpMod(NextDoLst, &LstMacroExpModOverride);
             Tmp->Tag->Next = FirstInputTag;
